@@ -10,6 +10,21 @@ except Exception:
     pass
 
 CHECKS = {
+ "C07": dict(
+   text="Stateful model checking of the real Compiled.RunContext / VM.run code: cmd/instr mechanically rewrites the current sources so that every mutex operation, atomic access of the abort flag (one per dispatched instruction), goroutine spawn, channel send/receive and select is a scheduling point of a controlled scheduler (engine/vsched); ALL interleavings of caller (RunContext(ctx); Set; RunContext; Get), the spawned VM goroutine(s) and a canceller calling cancel() at an arbitrary instant are explored by DFS with replay and a visited set over global state keys (scheduler state + caller observations + VM registers/frames/stack/globals) for six finite-state driver scripts (infinite loop, unbounded self tail recursion, nested loops, terminating, native call, run-time error). Invariants in every state (return value legal, at most one instruction dispatched after the abort store, VM goroutine terminated and lock free when the call returns), terminal checks (object reusable with correct results), deadlock detection and fair-cycle (livelock) analysis on the explored state graph.",
+   note="Trusted: the rewriting rules of cmd/instr and the scheduler's model of sync/atomic/channels/select (code between two scheduling points runs atomically; races are C08's subject); the state key. Bounded delay is decided in VM steps, not wall-clock time; a long native call is outside the bound as the property says. If cmd/instr meets a construct it cannot model the check reports exhaustive:false and no verdict.",
+   technique="stateful exhaustive interleaving exploration of the real code under a controlled scheduler (DFS + visited set, deadlock and fair-cycle detection)",
+   engine="vsched", design="4/C07"),
+ "C08": dict(
+   text="Three exhaustive parts. (1) K=2/3 threads each running Set; Run; GetAll on their own clone of one compiled script (string-constant indexing, closures/function constants, source module, mutable input arrays, run-time error positions) under all instruction-level interleavings of the instrumented real code: per-clone results equal the sequential baseline in every terminal state. (2) all assignments of 1-2 calls from {Set, Get, GetAll, IsDefined, Run, RunContext, Clone} to 2-3 threads on ONE compiled object x all interleavings: every call/return history checked for linearizability with porcupine against a sequential model, and a vector-clock happens-before checker over instrumented accesses (every Compiled field, elements of the globals slice incl. the VM's view) reports unordered conflicting accesses. (3) per program of the strings/consts/func/stmt families: reflective deep snapshot (unexported fields) of everything reachable from a second clone and the original before/after running the first clone; any difference is memory written by one execution and reachable from another.",
+   note="Trusted: cmd/instr rewriting and access annotation, the scheduler model, porcupine v1.3.0, the deep snapshot walker. Races inside host-supplied functions and below Go's memory model are outside.",
+   technique="exhaustive interleaving exploration under a controlled scheduler + linearizability checking of all histories + happens-before race checking + snapshot-diff of shared state over enumerated programs",
+   engine="vsched", design="4/C08"),
+ "C09": dict(
+   text="Explicit-state breadth-first search over operation sequences applied to live objects: 33 initial states (root made by immutable / freeze / module export / builtin-module table / host-built, over six literal shapes incl. shared sub-structure and error-held arrays, plus deliberately aliased roots for the proviso) x 119 operations (index/selector writes through global/local/free variables, slice, append, +, copy, freeze, immutable, splice, delete, for-in writes, child-taking, alias-then-write on root and derived variables), depth 3/4; successor = replay of the path on fresh objects + 1 operation; canonical state incl. aliasing graph and slice capacities; invariant in every state: the protected part of every protected root is unchanged, failed operations change nothing, freeze(x) == x and leaves x unchanged.",
+   note="Trusted: the canonicaliser (arguments for dropped fields are in checks/c09/canon.go), the protection tracking of shallow vs deep roots. Writes only store scalars; bytes values are not in the alphabet.",
+   technique="explicit-state BFS over operation sequences on the real objects with state canonicalisation and an invariant per state",
+   engine="osm", design="4/C09"),
  "C10": dict(
    text="Exhaustive small-scope enumeration: every unordered pair and every singleton of a 75-value alphabet covering all runtime types and numeric/string boundary values, in host-input and literal form, each evaluated by the real compiler+VM; the comparison laws, the documented truthiness and conversion tables and copy-equality/independence are evaluated on every element. Right level because the laws relate two code paths (a?b vs b?a, Copy vs Equals) and a finite alphabet of boundary values is where one-sided edits show.",
    note="Trusted: the alphabet (engine/val), the transcription of docs/runtime-types.md in checks/c10 (refConv/refFalsy), the harness snapshot function. Values outside the alphabet are not covered.",
@@ -35,11 +50,21 @@ CHECKS = {
    note="Trusted: engine/bcv, harness snapshot. CLI file handling (cmd/tengo) itself is not driven, only Bytecode.Encode/Decode which it calls.",
    technique="bounded exhaustive program enumeration with differential execution of transformed bytecode + explicit-state structural check",
    engine="bcv", design="4/C12"),
+ "C13": dict(
+   text="Explicit enumeration of ALL import graphs over main + n source modules (every edge set incl. self-loops for n<=3: 4096 graphs at n=3; n=4 with out-degree <=2 thorough) x import orders x module body variants; oracle = graph reachability computed independently: compilation terminates and succeeds iff no cycle is reachable from main, the error names a module on a reachable cycle, every reachable module is compiled exactly once (marker constants), results equal the reference evaluation of the DAG. Plus exhaustive small-program parts: importer variables invisible inside modules (10 places x 10 reference forms), export of 17 value kinds, immutability of the imported value under 30 write operations, freshness of module state per import evaluation, and file-import isolation (8 import names x settings x decoy files; thorough: strace shows no decoy access).",
+   note="Trusted: the reachability reference and value reference in checks/c13. Import chains through file modules are not enumerated.",
+   technique="exhaustive enumeration of import graphs and module-body variants against a graph-reachability reference model",
+   design="4/C13"),
  "C14": dict(
    text="Every failing program of the family failing-operation kinds (23) x statement forms holding the failing expression (10) x placements (main, if/else/for/for-in bodies, after eliminated dead code, nested function, closure over captured variables, copied function, module function, module top level) x call depth 0..2/3 x the statement form of each active call is run; the reference interpreter supplies the innermost executing statement and the active call chain, the generator's printer the span of every statement: the first location must lie in the failing statement's own text (its span minus nested statements), each following trace line inside the statement containing the corresponding active call, one line per active call, right file names. Sentinel errors (index out of bounds, stack overflow, allocation limit, bytes limit) and host-function errors are checked with errors.Is/errors.As through Run and RunContext.",
    note="Trusted: engine/ref for the failing statement and call chain, engine/gen printer spans. Error text is not compared, only positions and identities.",
    technique="bounded exhaustive enumeration of failing programs; oracle = generator span map + reference interpreter's failure location/call chain",
    engine="ref", design="4/C14"),
+ "C15": dict(
+   text="(1) Explicit-state BFS over API histories on real Script/Compiled objects (Add, Remove, Compile, Run, c.Run, c.RunContext, Set, Get, GetAll, IsDefined, Clone over 3 names x 4-5 Go values x 5 scripts, depth 5/6, successor = replay on fresh objects + 1 op, canonical state de-duplication) with a plain-Go reference model checked at every transition and in every state (incl. leaks between script, compiled objects and clones). (2) every Go value of the supported kinds (1043 values incl. nested maps/slices and unsupported kinds) through FromInterface/ToInterface against the documented table. (3) every typed Variable accessor on every value of the alphabet against the documented coercion table; Eval equivalence.",
+   note="Trusted: the reference model (checks/c15/model.go) and the transcription of docs/interoperability.md and docs/runtime-types.md. Compile is modelled as sharing the script's variable objects (docs silent).",
+   technique="explicit-state BFS over API call histories against a reference model + exhaustive value enumeration against documented conversion tables",
+   engine="osm", design="4/C15"),
  "C16": dict(
    text="Parameter shapes (4) x extra locals (0..2) x per-iteration closure capture x 14 syntactic call contexts (7 in claimed tail position incl. && / || right operands, parentheses, if/else, loop, map-method indirection; 7 not) x recursion depths at every capacity boundary (1021..1025, 2047..2049) and far beyond (1e5, 1e6 thorough), compared with the reference interpreter which runs syntactic tail self-calls as a loop: tail-position programs must complete at every depth with the loop-equivalent value and captured per-iteration parameters; non-tail programs give the reference value within capacity and an error beyond it, never a wrong value.",
    note="Trusted: engine/ref (tail position = documented rule). Ternary branches and a discarded call as last statement are unclaimed optimisations: value-or-error accepted, wrong values not.",
@@ -101,6 +126,8 @@ def main():
         },
         "engines": [
             {"name": "bcv", "path": "engine/bcv, engine/gen", "serves_properties": ["C02", "C03", "C12"], "kind_free_text": "bytecode abstract machine: explicit-state search over (pc,height) and over optimised/unoptimised pc pairs; program families enumerated exhaustively by replayed choice trees"},
+            {"name": "vsched", "path": "engine/vsched, engine/vmk, cmd/instr, engine/deep", "serves_properties": ["C07", "C08"], "kind_free_text": "controlled scheduler + stateful interleaving explorer (DFS with replay, visited set, deadlock/fair-cycle detection, vector-clock race checker) over the real code rewritten by cmd/instr"},
+            {"name": "osm", "path": "checks/c09, checks/c15 (own BFS drivers)", "serves_properties": ["C09", "C15"], "kind_free_text": "explicit-state BFS over operation sequences on live objects with replay-from-root successors and canonical state de-duplication"},
             {"name": "ref", "path": "engine/ref, engine/gen", "serves_properties": ["C01", "C14", "C16"], "kind_free_text": "definitional reference interpreter over the generator AST + exhaustive program families"},
             {"name": "enum", "path": "engine/report, engine/val, engine/tg", "serves_properties": sorted(CHECKS), "kind_free_text": "bounded exhaustive enumeration driver: deterministic case lists, parallel execution on the real implementation, violation grouping by signature, known-finding matching, evidence/replay writers"},
         ],
